@@ -70,7 +70,7 @@ class FastDiagPoissonSolver2D:
         self, poisson_matrix_x: np.ndarray, poisson_matrix_y: np.ndarray
     ) -> None:
         """Compute spectral decomposition (eigenvalue and vectors) of the matrices."""
-        eig_vals_x, eig_vecs_x = la.eig(poisson_matrix_x)
+        eig_vals_x, eig_vecs_x = la.eigh(poisson_matrix_x)
         # sort eigenvalues in decreasing order
         idx = eig_vals_x.argsort()[::-1]
         eig_vals_x[...] = eig_vals_x[idx]
@@ -78,7 +78,7 @@ class FastDiagPoissonSolver2D:
         self.tranpose_of_eig_vecs_x = np.transpose(eig_vecs_x)
         self.tranpose_of_inv_of_eig_vecs_x = np.transpose(la.inv(eig_vecs_x))
 
-        eig_vals_y, eig_vecs_y = la.eig(poisson_matrix_y)
+        eig_vals_y, eig_vecs_y = la.eigh(poisson_matrix_y)
         # sort eigenvalues in decreasing order
         idx = eig_vals_y.argsort()[::-1]
         eig_vals_y[...] = eig_vals_y[idx]
